@@ -11,9 +11,9 @@ LEVEL = "model_checking"
 RULE = ("tree of four 131073-byte files that share prefix and suffix (two equal, two differing in the middle) plus two "
         "small files, on ext4 (deleted inode numbers are reused at once); events: edits {set content variant (same "
         "length; also with the new mtime in the past of the old one), append, truncate, rename, delete+recreate, hard-link, create, edit a small file} - every edit advances "
-        "the file's mtime by 10 ms - and runs `group --cache` with a configuration from {metro, blake3} x {no transform, "
+        "the file's mtime by 10 ms - and runs `group --cache` with a configuration from {metro, blake3, sha512} x {no transform, "
         "transform cat} x --max-prefix-size {unset, 8192} or with the length-changing transforms `head -c 1000` / `head -c 70000` (same program, different classes), or a run SIGKILLed at 1/4, 1/2, 3/4 of its call history; "
-        "ALL histories (edit, run)^d after an initial cache-filling run: quick d=2 over 10 edits x 2 configurations + 5 edits x the (head, head2) switches; "
+        "ALL histories (edit, run)^d after an initial cache-filling run: quick d=2 over 10 edits x 2 configurations + 5 edits x the (head, head2) switches + 5 x 3 edits under blake3 and sha512 (long digests); "
         "thorough d=2 over the full alphabet and d=3 over 6 edits x 2 configurations (+ killed runs). A state is the "
         "tree + cache after a history prefix; a transition is one event. Invariant after every run: the report body "
         "(lengths, hashes, paths, order) of the cached run equals that of an uncached run of the same configuration on "
@@ -48,6 +48,8 @@ CONFIGS = {
     "metro_head": ["--hash-fn", "metro", "--transform", "head -c 1000"],
     # the same program with another argument: the four big files fall into different classes than under `head -c 1000`
     "metro_head2": ["--hash-fn", "metro", "--transform", "head -c 70000"],
+    # digests longer than 128 bits
+    "sha512": ["--hash-fn", "sha512"],
 }
 
 
@@ -61,6 +63,12 @@ def cases(tier, seed):
         steps = [(e, c) for e in EDITS_QUICK for c in ("metro", "metro_head")]
         for h in itertools.product(steps, repeat=2):
             out.append({"history": [list(map(list, h))[i] for i in range(2)], "kills": False})
+        # long digests (256 / 512 bits): cache hits next to misses (a new copy of cached content, a re-created file)
+        mix = [("create", "F5", "V0"), ("recreate", "F3", "V0"), ("set", "F3", "V0"), ("hardlink", "F1", "F1h"), ("rename", "F1", "F1r")]
+        for cfg in ("blake3", "sha512"):
+            for e1 in mix:
+                for e2 in mix[:3]:
+                    out.append({"history": [[list(e1), cfg], [list(e2), cfg]], "kills": False})
         # switching between two transforms that run the same program with different arguments
         few = EDITS_QUICK[:3] + EDITS_QUICK[5:7]
         for c1, c2 in (("metro_head", "metro_head2"), ("metro_head2", "metro_head"), ("metro_head2", "metro_head2")):
@@ -190,7 +198,8 @@ def evaluate(case):
             return body(C.parse_json_report(out)), err.decode("utf-8", "replace")
 
         # initial cache-filling runs
-        for cfg in ("metro", "metro_tr", "metro_head"):
+        # the cache is warm for every configuration the history uses (+ metro, so that a foreign table is always there)
+        for cfg in sorted(set(["metro"] + [c for _, c in case["history"]])):
             b1, e1 = run(cfg, True)
             if b1 is None:
                 raise C.MachineryError("initial cached run failed: %s" % e1[-300:])
